@@ -65,12 +65,12 @@ func aliasClasses(path []Fact) func(a, b string) bool {
 func permCheckedOnPath(path []Fact, keys []string, need int64, acceptVar func(ssa.Value) bool) bool {
 	same := aliasClasses(path)
 	for _, fa := range path {
-		c, truth, ok := callFact(fa, "checkPermission")
+		pc, truth, ok := permFact(fa)
 		if !ok || !truth {
 			continue
 		}
-		rks, _ := nonFreshKeys(callRecv(c))
-		rks = append(rks, objKeyOf(callRecv(c)).s)
+		rks, _ := nonFreshKeys(pc.recv)
+		rks = append(rks, objKeyOf(pc.recv).s)
 		match := false
 		for _, k := range keys {
 			for _, rk := range rks {
@@ -82,17 +82,13 @@ func permCheckedOnPath(path []Fact, keys []string, need int64, acceptVar func(ss
 		if !match {
 			continue
 		}
-		args := callArgs(c)
-		if len(args) < 1 {
-			continue
-		}
-		if m, isC := constInt(args[0]); isC {
+		if m, isC := constInt(pc.mask); isC {
 			if m&need == need {
 				return true
 			}
 			continue
 		}
-		if acceptVar != nil && acceptVar(args[0]) {
+		if acceptVar != nil && acceptVar(pc.mask) {
 			return true
 		}
 	}
@@ -427,19 +423,17 @@ func c03Matrix(rc *RuleCtx) {
 			}
 			checkedHere := func(at ssa.Instruction) bool {
 				for _, fa := range factsAt(at.Block()) {
-					if c, truth, k := callFact(fa, "checkPermission"); k && truth {
-						if m, isC := constInt(callArgs(c)[0]); isC && m&lk == lk && objKeyOf(callRecv(c)).s == dirKey {
+					if pc, truth, k := permFact(fa); k && truth {
+						if m, isC := constInt(pc.mask); isC && m&lk == lk && objKeyOf(pc.recv).s == dirKey {
 							return true
 						}
 					}
 					// the result of the check stored in a local and tested later (`ok := d.checkPermission(...); ... if !ok`)
 					v, truth := normCond(fa.Cond, fa.Truth)
 					for _, rv := range resolveRaw(v) {
-						if c, _ := resultOfCall(rv); c != nil && truth {
-							if fn := calleeFunc(c); fn != nil && nm(fn) == "checkPermission" {
-								if m, isC := constInt(callArgs(c)[0]); isC && m&lk == lk && objKeyOf(callRecv(c)).s == dirKey {
-									return true
-								}
+						if pc, k := asPermCheck(strip(rv)); k && truth {
+							if m, isC := constInt(pc.mask); isC && m&lk == lk && objKeyOf(pc.recv).s == dirKey {
+								return true
 							}
 						}
 					}
@@ -477,8 +471,8 @@ func c03Matrix(rc *RuleCtx) {
 					desc++
 					ok := false
 					for _, fa := range factsAt(st.Block()) {
-						if c, truth, k := callFact(fa, "checkPermission"); k && truth {
-							if m, isC := constInt(callArgs(c)[0]); isC && m&lk == lk && objKeyOf(callRecv(c)).s == objKeyOf(st.Val).s {
+						if pc, truth, k := permFact(fa); k && truth {
+							if m, isC := constInt(pc.mask); isC && m&lk == lk && objKeyOf(pc.recv).s == objKeyOf(st.Val).s {
 								ok = true
 							}
 						}
